@@ -189,6 +189,17 @@ def check_positions(ctx, case):
                 ctx.violation("position:" + "/".join(str(p) for p in path if not str(p).isdigit()), dict(case, normalize_names=nn),
                               {"path": role, "observed": short(got, 200), "expected": exp})
                 return
+    n = ctx.obs["relational_pairs"]
+    if n % 5 == 0:
+        # the same setting handed over through parse_from_file(parser_settings=...) must strip / keep exactly like the constructor flag
+        from vf.run import parse_via_file
+        for nn in (True, False):
+            vf = parse_via_file(case["ddl"], {"normalize_names": nn})
+            ctx.evaluated()
+            ctx.obs["via_parse_from_file"] += 1
+            if vf[0] != "ok" or vf[1] != results[nn]:
+                ctx.violation("parse_from_file_ignores_normalize_names", case, {"normalize_names": nn, "via_file": short(vf, 250), "via_constructor": short(results[nn], 250)})
+                break
     pairs = sorted(((v[0], v[1]) for v in ids.values()), key=lambda p: -len(p[0]))
     stripped = strip_ids(json.loads(json.dumps(results[False])), pairs)
     d = ddiff(stripped, json.loads(json.dumps(results[True])))
@@ -251,7 +262,8 @@ def check_kw_position(ctx, case, kf_inputs):
     ctx.obs["kw_position:" + pos] += 1
     if not good:
         key = "C06:keyword-name:" + pos
-        kf = key if w.upper() in kf_inputs.get(key, ()) else None
+        # keyword-shaped words are listed case-insensitively; words that merely start with ARRAY only in their exact (upper-case) spelling
+        kf = key if (w.upper() in kf_inputs.get(key, ()) or w in kf_inputs.get(key + "#exact", ())) else None
         ctx.violation("keyword_name:" + pos, dict(case, ddl=ddl), {"word": w, "observed": short(r, 300)}, kf=kf)
 
 
@@ -300,6 +312,7 @@ def check_case(ctx, case):
         check_kw_column(ctx, case)
     elif g == "kw_position":
         inputs = {k: set(e.get("inputs", [])) for k, e in kfmod.open_keys("C06").items()}
+        inputs.update({k + "#exact": set(e.get("inputs_exact_spelling", [])) for k, e in kfmod.open_keys("C06").items()})
         check_kw_position(ctx, case, inputs)
     elif g == "k11":
         check_k11(ctx, case)
